@@ -12,10 +12,18 @@
    literals, the 37 core elements, variables and function definitions at top level (not inside
    a def, where Python would create a local), if / for / while, the lambdas λ ƛ ' µ and the
    shorthands ⁽ ‡ ≬, named functions with numeric, named and `*` parameters, list literals, the
-   modifiers v & ~ ß ƒ ɖ ₌ ₍; a nested def does not read a named parameter of an enclosing
-   function (Python would use a closure cell).  NOT in the core (no statement is made): string
-   / character / compressed literals, the ghost variable and `_` names, X x (break / recurse),
-   assignments inside a def, triadic modifiers.  Dynamically outside both models (outcome
+   modifiers v & ~ ß ƒ ɖ ₌ ₍; early exits: X in a for / while body (through ifs) = break, X in a
+   plain lambda body (through ifs) = early return of the top of its stack, X at top level = nothing;
+   x in a for body = continue, x in a plain lambda = recursion, x as the operand of a modifier = call
+   of the function the modifier is used in, x at top level = print the stack.  A nested def does not
+   read a named parameter of an enclosing function (Python would use a closure cell).  NOT in the core (no statement is made): string
+   / character / compressed literals, the ghost variable and `_` names, assignments inside a def,
+   triadic modifiers, and -- by the decidable guards Values.break_core / recurse_core / recurse_ok --
+   the early exits whose emitted line is not what the documents say: X / x in a while CONDITION
+   (known finding C02-exit-in-while-condition), X in a map / filter / sort lambda, a named function,
+   a list item or after a modifier (emitted `pass`), x in a while body (`continue` re-tests the stale
+   condition), in a top-level if (`pass`), in a named function / map / filter / sort lambda / list
+   item (prints the stack), after a modifier's operand (calls the caller's caller).  Dynamically outside both models (outcome
    XErr EStuck, never compared): a function value used as an if condition / for iterable
    (Structures.md: called first; implementation: taken as true / TypeError -- known finding
    C01-function-valued-condition), function values in arithmetic or printers, lazily applied
@@ -25,18 +33,28 @@ From Vy Require Import Model.Base Model.Lexer Model.Parser Model.Transpile Model
   Proofs.C01Frames Proofs.C01Sim Proofs.C01Templates Proofs.C01Examples.
 Import ListNotations.
 
-(* THE theorem (full statement, all fuel, all states, all flag configurations, every nesting) *)
+(* THE theorem (full statement, all fuel, all states, all flag configurations, every nesting; recursion
+   makes the fuel essential: out-of-fuel is an outcome of its own on both sides) *)
 Theorem C01_compile_correct : forall cf fuel p s,
   core_program p = true -> exec cf fuel false p s = eval cf fuel p s.
 Proof. exact compile_correct_program. Qed.
 Print Assumptions C01_compile_correct.
 
-(* the equation itself needs only the part of the grammar the evaluators enforce themselves
-   (`core_ok`), at top level and inside a def: lambda and function bodies, list items, operands *)
-Theorem C01_compile_correct_in_def : forall cf fuel indef p s,
-  core_ok_list indef p = true -> exec cf fuel indef p s = eval cf fuel p s.
+(* the same for code standing inside a def or a loop body, where a statement list may end with an
+   early exit: equal up to `lift`, the bookkeeping pops the emitted code performs BEFORE it jumps
+   (ctx.context_values.pop() before break / continue, the four pops before `return ret`), which
+   the reference evaluator leaves to its brackets; `lift` is the identity on every other outcome *)
+Theorem C01_compile_correct_in_def : forall cf fuel indef il lam p s,
+  core_ok_list indef il lam p = true -> exec cf fuel indef p s = lift (eval cf fuel p s).
 Proof. exact compile_correct_indef. Qed.
 Print Assumptions C01_compile_correct_in_def.
+
+(* which early exits can leave a statement list: break only inside a loop, continue only inside a for
+   loop, an early return only directly inside a plain lambda; none at the top level *)
+Theorem C01_early_exits : forall cf fuel indef il lam p s,
+  core_ok_list indef il lam p = true -> sig_ok il lam (eval cf fuel p s).
+Proof. exact eval_signals. Qed.
+Print Assumptions C01_early_exits.
 
 (* whole programs: start-up (flag H), ranges (flags M m), the run, the implicit output of the top
    of the stack with the flags j s W O o *)
@@ -45,14 +63,14 @@ Theorem C01 : forall fl fuel inputs p,
 Proof. exact program_correct_program. Qed.
 Print Assumptions C01.
 
-(* the reference semantics leaves the interpreter's context where it found it, for EVERY program
-   (balance by construction), and so does the emitted code of a core program *)
-Theorem C01_reference_balanced : forall cf fuel p s s', eval cf fuel p s = XOk s' -> frames s s'.
+(* the reference semantics leaves the interpreter's context where it found it, for EVERY program and
+   however a statement list ends (balance by construction), and so does the emitted code of a core program *)
+Theorem C01_reference_balanced : forall cf fuel p s g s', eval cf fuel p s = XOk (g, s') -> frames s s'.
 Proof. exact eval_frames. Qed.
 Print Assumptions C01_reference_balanced.
 
-Theorem C01_emitted_balanced : forall cf fuel p s s',
-  core_ok_list false p = true -> exec cf fuel false p s = XOk s' -> frames s s'.
+Theorem C01_emitted_balanced : forall cf fuel p s g s',
+  core_ok_list false LNone false p = true -> exec cf fuel false p s = XOk (g, s') -> frames s s'.
 Proof. exact exec_frames. Qed.
 Print Assumptions C01_emitted_balanced.
 
@@ -67,7 +85,7 @@ Proof. exact templates_ok. Qed.
 Print Assumptions C01_templates.
 
 (* non-vacuity: a lambda called in an if in a for in an if; a two-argument function, a variable, a
-   for loop, a map lambda and the implicit output; implicit input with flag W *)
+   for loop, a map lambda and the implicit output *)
 Theorem C01_example_nested :
   exists p s, parse_source ex_src1 = Ok p /\ core_program p = true
     /\ run_machine FlNone 12 [] p = XOk s /\ run_ref FlNone 12 [] p = XOk s
@@ -81,3 +99,32 @@ Theorem C01_example_function :
     /\ stk s = [] /\ out s = text [[10216; 32; 54; 32; 124; 32; 50; 32; 124; 32; 51; 32; 10217]]%N.
 Proof. exact example2. Qed.
 Print Assumptions C01_example_function.
+
+(* a recursive lambda that terminates with a value (5! = 120); a loop that breaks at its third item *)
+Theorem C01_example_recursion :
+  exists p s, parse_source ex_src_fact = Ok p /\ core_program p = true
+    /\ run_machine FlNone 40 [] p = XOk s /\ run_ref FlNone 40 [] p = XOk s
+    /\ stk s = [] /\ out s = text [[49; 50; 48]]%N.
+Proof. exact example_fact. Qed.
+Print Assumptions C01_example_recursion.
+
+Theorem C01_example_break :
+  exists p s, parse_source ex_src_break = Ok p /\ core_program p = true
+    /\ run_machine FlNone 12 [] p = XOk s /\ run_ref FlNone 12 [] p = XOk s
+    /\ stk s = [] /\ out s = text [[49]; [50]]%N.
+Proof. exact example_break. Qed.
+Print Assumptions C01_example_break.
+
+(* the guard is decidable and does what the header says on the named classes *)
+Theorem C01_guard_examples :
+  core_of [123; 88; 124; 49; 125]%N = Some false                          (* {X|1} *)
+  /\ core_of [51; 411; 53; 88; 57; 59]%N = Some false                     (* 3ƛ5X9; *)
+  /\ core_of [64; 102; 58; 49; 124; 53; 88; 57; 59]%N = Some false        (* @f:1|5X9; *)
+  /\ core_of [49; 123; 120; 125]%N = Some false                           (* 1{x} *)
+  /\ core_of [64; 102; 58; 49; 124; 120; 59]%N = Some false               (* @f:1|x; *)
+  /\ core_of [51; 40; 118; 43; 88; 41]%N = Some false                     (* 3(v+X) *)
+  /\ core_of [51; 40; 110; 50; 61; 91; 88; 93; 41]%N = Some true          (* 3(n2=[X]) *)
+  /\ core_of [955; 118; 120; 59]%N = Some true                            (* λvx; *)
+  /\ core_of [955; 118; 43; 120; 59]%N = Some false.                      (* λv+x; *)
+Proof. exact guard_examples. Qed.
+Print Assumptions C01_guard_examples.
